@@ -192,6 +192,7 @@ def install(ex):
         if grouped:
             want['ent'] = True
         o = orig_observe(psi, A, key, want)
+        o['aliased_B'] = len(set(id(B) for B in psi._B)) < len(psi._B)       # two sites share one tensor object
         if grouped and all(f is not None for f in psi.form):
             try:
                 th = psi.get_theta(0, psi.L)
@@ -215,7 +216,29 @@ def install(ex):
             fp = fingerprint(psi)
             try:
                 if t == 'call':
-                    getattr(psi, op['method'])(*op.get('args', []), **op.get('kwargs', {}))
+                    parent = ex.build(op['parent'], SI) if 'parent' in op else None
+
+                    def arg(a):
+                        if a == 'self':
+                            return psi
+                        if a == 'parent':
+                            return parent
+                        if isinstance(a, dict) and 'badop' in a:
+                            import tenpy.linalg.np_conserved as npc2
+                            st = psi.sites[0]
+                            o1 = st.get_op('Id')
+                            if a['badop'] == 'unpaired':
+                                return o1.replace_labels(['p', 'p*'], ['p', 'q*'])
+                            if a['badop'] == 'p0only':
+                                return o1.replace_labels(['p', 'p*'], ['p0', 'p0*'])
+                            o2 = npc2.outer(o1.replace_labels(['p', 'p*'], ['p0', 'p0*']), psi.sites[1].get_op('Id').replace_labels(['p', 'p*'], ['p1', 'p1*']))
+                            if a['badop'] == 'mixed':
+                                return o2.replace_labels(['p1', 'p1*'], ['p', 'p*'])
+                            return o2.replace_labels(['p1', 'p1*'], ['p1x', 'p1x*'])
+                        if isinstance(a, list):
+                            return [arg(x) for x in a] if any(isinstance(x, (dict, str)) for x in a) else (tuple(a) if op['method'] == 'extract_enlarged_segment' else a)
+                        return a
+                    getattr(psi, op['method'])(*[arg(a) for a in op.get('args', [])], **{k_: arg(v_) for k_, v_ in op.get('kwargs', {}).items()})
                 else:
                     do_op(psi, inner, A, key, SI)
                 ex_['raised'] = None
@@ -261,7 +284,7 @@ def install(ex):
                 return o if isinstance(o, str) else ex.npc_op([psi.sites[i]], cmat(o))
             if 'single' in op:
                 ops = conv(0, op['single'])
-                ocls = 'single'
+                ocls = 'single:name' if isinstance(ops, str) else 'single:Array'
             else:
                 ops = [conv(i, o) for i, o in enumerate(op['ops'])]
                 ocls = 'list:L' if len(ops) == psi.L else 'list:divisor'
@@ -511,10 +534,14 @@ def install(ex):
         elif t == 'extract_segment':
             first, last = op['first'], op['last']
             fp = fingerprint(psi)
+            bcls = 'none'
+            if bc == 'segment' and psi.segment_boundaries[0] is not None:
+                bcls = {(True, False): 'kept-left', (False, True): 'kept-right', (True, True): 'kept-both', (False, False): 'dropped'}[(first == 0, last == psi.L - 1)]
             new = psi.extract_segment(first, last)
             FORKS.append((key, 'original of extract_segment', psi, fp))
             log_opt(t, first='negative' if first < 0 else ('0' if first == 0 else 'inner'),
-                    last='beyond-cell' if last >= psi.L else ('L-1' if last == psi.L - 1 else 'inner'), **{'<bc>': bc})
+                    last='beyond-cell' if last >= psi.L else ('L-1' if last == psi.L - 1 else 'inner'),
+                    **{'<bc>': bc, '<recorded boundaries of a segment>': bcls})
             psi = new
         elif t == 'extract_enlarged_segment':
             parent = ex.build(op['parent'], SI)
